@@ -3,6 +3,7 @@
 
 pub mod corpus;
 pub mod engine;
+pub mod fuzzdec;
 pub mod gen;
 pub mod props;
 pub mod refmodel;
